@@ -16,7 +16,7 @@ import (
 // C06: natural-language text survives both codecs byte for byte.
 
 var textProps = []string{"name", "summary", "content", "preferredUsername", "source.content", "source.content-only"}
-var textForms = []string{"single-untagged", "single-tagged", "map-entry", "map-entry-untagged", "map-same-text"}
+var textForms = []string{"single-untagged", "single-tagged", "map-entry", "map-entry-untagged", "map-same-text", "map-entry-beside-empty"}
 var textCodecs = []string{"json-pkg", "json-method", "gob-pkg", "gob-method"}
 
 // text corpus by class (valid UTF-8 only: the statement's domain)
@@ -117,6 +117,22 @@ func buildTextValue(prop, form, s string, r *rand.Rand) (vocab.Item, func(any) (
 				t = "a different text"
 			}
 			nlv = append(nlv, vocab.LangRefValue{Ref: tags[i], Value: vocab.Content(t)})
+		}
+	case "map-entry-beside-empty":
+		// a translation was withdrawn: the text sits under its tag next to one or two entries whose text is empty (or nil)
+		tags := append([]vocab.LangRef{}, textTags...)
+		r.Shuffle(len(tags), func(i, j int) { tags[i], tags[j] = tags[j], tags[i] })
+		n := 2 + r.Intn(2)
+		pos := r.Intn(n)
+		for i := 0; i < n; i++ {
+			switch {
+			case i == pos:
+				nlv = append(nlv, vocab.LangRefValue{Ref: tags[i], Value: vocab.Content(s)})
+			case r.Intn(2) == 0:
+				nlv = append(nlv, vocab.LangRefValue{Ref: tags[i], Value: vocab.Content{}})
+			default:
+				nlv = append(nlv, vocab.LangRefValue{Ref: tags[i]})
+			}
 		}
 	case "map-entry-untagged":
 		// the text sits in the untagged entry of a list that also has tagged ones
@@ -285,6 +301,10 @@ func checkText(c *Ctx, prop, form, codec, class, s string) {
 		}
 	}
 	jsonCodec := codec[:4] == "json"
+	if form == "map-entry-beside-empty" {
+		// entries without a text carry nothing: whether a codec keeps them is its own business, the entry with the text must be there
+		want, gotN = withText(want), withText(gotN)
+	}
 	if len(gotN) != len(want) {
 		c.Fail(sigBase+"|entries-lost", fmt.Sprintf("%s: %d entries stored, %d came back", label, len(want), len(gotN)),
 			map[string]any{"case": label, "want": fmt.Sprintf("%q", want), "got": fmt.Sprintf("%q", gotN), "bytes": clipB(b)})
@@ -292,7 +312,7 @@ func checkText(c *Ctx, prop, form, codec, class, s string) {
 	}
 	for i := range want {
 		wantRef := want[i].Ref
-		if jsonCodec && len(want) == 1 {
+		if jsonCodec && len(want) == 1 && form != "map-entry-beside-empty" {
 			wantRef = vocab.NilLangRef // a lone tagged string is written collapsed and returns untagged
 		}
 		if gotN[i].Ref != wantRef {
@@ -309,6 +329,16 @@ func checkText(c *Ctx, prop, form, codec, class, s string) {
 				map[string]any{"case": label, "stored": fmt.Sprintf("%q", want[i].Value), "got": fmt.Sprintf("%q", gotN[i].Value), "bytes": clipB(b)})
 		}
 	}
+}
+
+func withText(n vocab.NaturalLanguageValues) vocab.NaturalLanguageValues {
+	var out vocab.NaturalLanguageValues
+	for _, e := range n {
+		if len(e.Value) > 0 {
+			out = append(out, e)
+		}
+	}
+	return out
 }
 
 func formClass(form string) string {
@@ -337,7 +367,7 @@ func jsonTextSide(b []byte, prop, form string, want vocab.NaturalLanguageValues,
 		return "writer"
 	}
 	var node *vmodel.JVal
-	if len(want) == 1 {
+	if len(want) == 1 && form != "map-entry-beside-empty" {
 		node = obj.Get(term)
 	} else if mp := obj.Get(term + "Map"); mp != nil {
 		node = mp.Get(string(want[i].Ref))
